@@ -4,8 +4,8 @@ from vv.registry import PROPS, COMMON_ASSUME, rc
 harness("h_c02", ["harness/h_c02.cc"], libs=("csg",))
 
 PROPS["C02"] = dict(
-    parts=[rc("h_c02", quick=dict(cases=200000, procs=8, budget_s=600),
-              thorough=dict(cases=10000000, procs=16, budget_s=3000))],
+    parts=[rc("h_c02", quick=dict(cases=1000000, procs=8, budget_s=600),
+              thorough=dict(cases=20000000, procs=16, budget_s=3000))],
     rule=("ortho / triclinic: box edges k/16 in 0.44..50 nm (cubic 15%), triclinic off-diagonals t*edge with t in {+-1/2 (reduction "
           "boundary), 0, j/32, 2^-20 lattice}, box type auto-detected or explicit (diagonal matrix also as explicit triclinic), three "
           "routes (Topology::BCShortestConnection, Topology::getDist on two beads, boundary class + Clone); points = B*(f+n) with f on a "
